@@ -1,8 +1,10 @@
 /-!
 # M6 — small-step interleaving model of the locking / CAS / channel protocol of godi
 
-Anchors: `/repo/scope.go` and `/repo/provider.go` as they are at HEAD (after the `fix:` commits
-`1998b84`, `2bd1169`, `611f8a8`): line numbers in the comments below refer to those two files.
+Anchors: `/repo/scope.go` and `/repo/provider.go` as of commit `d23542b` (after the `fix:` commits
+`1998b84`, `2bd1169`, `611f8a8`, `d23542b`): line numbers in the comments below refer to those two
+files at that commit; `(*scope).Close` is `dispose` (scope.go:264-337) behind a thin wrapper. When
+the source moves, `Gen/LockFacts.lean` (regenerated on every run) is what ties the model to it.
 
 One scope `S` (created by `provider.CreateScope`, so `parentScope == nil`) is modelled in full:
 its `disposed` flag, its `closed` channel, its context, its instance cache (two scoped keys, `a`
@@ -90,51 +92,52 @@ deriving DecidableEq, Repr, Hashable
 
 inductive Pc
   -- `scope.Get` of scoped key `k`; `o = true`: nested inside the construction of `a`
-  | rChk (k : Key) (o : Bool)             -- scope.go:127  atomic.LoadInt32(&s.disposed)
-  | rRead (k : Key) (o : Bool)            -- scope.go:471 -> 350-352  RLock instancesMu; read; RUnlock
-  | rMu (k : Key) (o : Bool)              -- scope.go:332-341  creatingMu region: find or make the mutex
-  | rLock (k : Key) (o : Bool)            -- scope.go:343  m.Lock()            BLOCKING
-  | rRe (k : Key) (o : Bool)              -- scope.go:481 -> 350-352  second look at the cache
-  | rCtor (k : Key) (o : Bool)            -- scope.go:558  USER constructor
-  | rSet (k : Key) (o : Bool) (i : Inst)  -- scope.go:365-369  Lock instancesMu; if != nil write; Unlock
-  | rTrk (k : Key) (o : Bool) (i : Inst)  -- scope.go:404-416  Lock disposablesMu; load disposed; append; Unlock
-  | rSelf (k : Key) (o : Bool) (i : Inst) -- scope.go:408  USER Close of the late instance
-  | rUnl (k : Key) (o : Bool) (r : Res)   -- scope.go:479  deferred m.Unlock()
+  | rChk (k : Key) (o : Bool)             -- scope.go:130  atomic.LoadInt32(&s.disposed)
+  | rRead (k : Key) (o : Bool)            -- scope.go:487 -> 366-368  RLock instancesMu; read; RUnlock
+  | rMu (k : Key) (o : Bool)              -- scope.go:348-357  creatingMu region: find or make the mutex
+  | rLock (k : Key) (o : Bool)            -- scope.go:359  m.Lock()            BLOCKING
+  | rRe (k : Key) (o : Bool)              -- scope.go:497 -> 366-368  second look at the cache
+  | rCtor (k : Key) (o : Bool)            -- scope.go:574  USER constructor
+  | rSet (k : Key) (o : Bool) (i : Inst)  -- scope.go:381-385  Lock instancesMu; if != nil write; Unlock
+  | rTrk (k : Key) (o : Bool) (i : Inst)  -- scope.go:420-432  Lock disposablesMu; load disposed; append; Unlock
+  | rSelf (k : Key) (o : Bool) (i : Inst) -- scope.go:424  USER Close of the late instance
+  | rUnl (k : Key) (o : Bool) (r : Res)   -- scope.go:495  deferred m.Unlock()
   -- `scope.Get` of a transient
-  | tChk | tCtor | tTrk (i : Inst) | tSelf (i : Inst)   -- 127, 558, 372 -> 404-416, 408
+  | tChk | tCtor | tTrk (i : Inst) | tSelf (i : Inst)   -- 130, 574, 388 -> 420-432, 424
   -- `scope.Get` of a singleton
-  | gChk | gLoad                                        -- 127, 458 (sync.Map.Load)
+  | gChk | gLoad                                        -- 130, 474 (sync.Map.Load, provider.go:266)
   -- `scope.CreateScope`
-  | sChk                  -- scope.go:200
-  | sInit                 -- scope.go:208-209 -> 55-85: new child, USER initializers (77)
-  | sAdd (c : Cid)        -- scope.go:216-223  Lock childrenMu; nil check; write; Unlock
-  | sReg (c : Cid)        -- scope.go:226-233  Lock scopesMu; nil check; write; Unlock
-  | sSpawn (c : Cid)      -- scope.go:236      go watcher
-  -- `Close` of child `c` (same code as below, the child's private parts folded into the CAS step)
-  | kCas (c : Cid) (k : K)   -- scope.go:250 (+263-292 on the child's own, empty, tables)
-  | kWait (c : Cid) (k : K)  -- scope.go:255  <-s.closed                       BLOCKING
-  | kDetP (c : Cid) (k : K)  -- scope.go:295-299  Lock S.childrenMu; delete; Unlock
-  | kDetS (c : Cid) (k : K)  -- scope.go:302-306  Lock scopesMu; delete; Unlock
-  | kSig (c : Cid) (k : K)   -- scope.go:258 (deferred) close(s.closed)  (+309-311 private)
-  -- `S.Close`
-  | cCas (k : K)                    -- scope.go:250  CompareAndSwapInt32(&s.disposed, 0, 1)
-  | cWait (k : K)                   -- scope.go:255  <-s.closed                 BLOCKING
-  | cCancel (k : K)                 -- scope.go:263-265  s.cancel()
-  | cTake (k : K)                   -- scope.go:268-274  Lock childrenMu; copy; = nil; Unlock
-  | cKids (l : List Cid) (k : K)    -- scope.go:276-277  loop head / child.Close()
-  | cTakeD (k : K)                  -- scope.go:283-286  Lock disposablesMu; take; = nil; Unlock
-  | cDrain (l : List Inst) (k : K)  -- scope.go:288-289  USER Close, last created first
-  | cDetS (k : K)                   -- scope.go:302-306  Lock scopesMu; delete; Unlock   (295-299 skipped: parentScope == nil)
-  | cNil (k : K)                    -- scope.go:309-311  Lock instancesMu; = nil; Unlock
-  | cSig (k : K)                    -- scope.go:258 (deferred)  close(s.closed)
+  | sChk                  -- scope.go:203
+  | sInit                 -- scope.go:211-212 -> 58-88: new child, USER initializers (80)
+  | sAdd (c : Cid)        -- scope.go:219-226  Lock childrenMu; nil check; write; Unlock
+  | sReg (c : Cid)        -- scope.go:229-236  Lock scopesMu; nil check; write; Unlock
+  | sSpawn (c : Cid)      -- scope.go:239      go watcher
+  -- `dispose` of child `c` (same code as below, the child's private parts folded into the CAS step)
+  | kCas (c : Cid) (k : K)   -- scope.go:265 (+279-308 on the child's own, empty, tables)
+  | kWait (c : Cid) (k : K)  -- scope.go:270  <-s.closed                       BLOCKING
+  | kDetP (c : Cid) (k : K)  -- scope.go:311-315  Lock S.childrenMu; delete; Unlock
+  | kDetS (c : Cid) (k : K)  -- scope.go:318-322  Lock scopesMu; delete; Unlock
+  | kSig (c : Cid) (k : K)   -- scope.go:274, 273 (deferred) closeErr = err; close(s.closed)  (+325-327 private)
+  -- `dispose` of `S`
+  | cCas (k : K)                    -- scope.go:265  CompareAndSwapInt32(&s.disposed, 0, 1)
+  | cWait (k : K)                   -- scope.go:270-271  <-s.closed; read closeErr   BLOCKING
+  | cCancel (k : K)                 -- scope.go:279-281  s.cancel()
+  | cTake (k : K)                   -- scope.go:284-290  Lock childrenMu; copy; = nil; Unlock
+  | cKids (l : List Cid) (k : K)    -- scope.go:292-293  loop head / child.dispose()
+  | cTakeD (k : K)                  -- scope.go:299-302  Lock disposablesMu; take; = nil; Unlock
+  | cDrain (l : List Inst) (k : K)  -- scope.go:304-305  USER Close, last created first
+  | cDetS (k : K)                   -- scope.go:318-322  Lock scopesMu; delete; Unlock   (311-315 skipped: parentScope == nil)
+  | cNil (k : K)                    -- scope.go:325-327  Lock instancesMu; = nil; Unlock
+  | cErr (k : K)                    -- scope.go:274 (deferred, runs first)  s.closeErr = err   (plain write)
+  | cSig (k : K)                    -- scope.go:273 (deferred, runs last)   close(s.closed)
   -- `provider.Close`
   | pCas                       -- provider.go:194
   | pTake                      -- provider.go:201-207  Lock scopesMu; copy; = nil; Unlock
-  | pScopes (l : List Nat)     -- provider.go:209-211  loop head / s.Close()
+  | pScopes (l : List Nat)     -- provider.go:209-211  loop head / s.dispose()
   | pRest                      -- provider.go:218-251  root scope, singleton disposables, sync.Map cleared
   -- goroutines godi starts, and the environment
   | wS                         -- provider.go:180-182  <-ctx.Done(); s.Close()             BLOCKING
-  | wKid (c : Cid)             -- scope.go:236-238     <-ctx.Done(); child.Close()         BLOCKING
+  | wKid (c : Cid)             -- scope.go:239-241     <-ctx.Done(); child.Close()         BLOCKING
   | xCancel                    -- the user cancels the context `S` was created with
   | done (r : Res)
 deriving DecidableEq, Repr, Hashable
@@ -155,6 +158,7 @@ def Cfg.fails (c : Cfg) : Key → Bool
 structure Sh where
   disposed : Bool := false                              -- scope.go:49
   closedSig : Bool := false                             -- scope.go:52 (closed channel closed)
+  errSet : Bool := false                                -- scope.go:55 closeErr has been written
   cancelled : Bool := false                             -- S's context
   cache : Option (KV (Option Inst)) := some ⟨none, none⟩  -- scope.go:32
   lock : KV Bool := ⟨false, false⟩                      -- scope.go:37 (the mutexes in `creating`)
@@ -266,7 +270,7 @@ def act (c : Cfg) (s : Sh) : Pc → Option (Pc × Sh × List Pc)
   | .gLoad => if s.singletons then some (.done .okS, s, []) else some (.done .notInit, s, [])
   | .sChk => if s.disposed then some (.done .disposed, s, []) else some (.sInit, s, [])
   | .sInit =>
-    if c.failInit then some (.kCas s.nextC (.ret .initErr), { s with nextC := s.nextC + 1 }, [])  -- scope.go:80
+    if c.failInit then some (.kCas s.nextC (.ret .initErr), { s with nextC := s.nextC + 1 }, [])  -- scope.go:83
     else some (.sAdd s.nextC, { s with nextC := s.nextC + 1 }, [])
   | .sAdd ch =>
     -- `if s.children == nil { unlock; child.Close(); return ErrScopeDisposed }; s.children[child] = …`
@@ -296,7 +300,8 @@ def act (c : Cfg) (s : Sh) : Pc → Option (Pc × Sh × List Pc)
     | [] => some (.cDetS k, s, [])
     | i :: rest => some (.cDrain rest k, s.userClose i, [])
   | .cDetS k => some (.cNil k, s.scopeDelete 0, [])
-  | .cNil k => some (.cSig k, { s with cache := none }, [])
+  | .cNil k => some (.cErr k, { s with cache := none }, [])
+  | .cErr k => some (.cSig k, { s with errSet := true }, [])
   | .cSig k => some (resume k, { s with closedSig := true }, [])
   | .pCas => if s.pdisposed then some (.done .okUnit, s, []) else some (.pTake, { s with pdisposed := true }, [])
   | .pTake => some (.pScopes (order c (s.scopes.getD [])), { s with scopes := none }, [])
